@@ -180,7 +180,7 @@ def run_unit(unit, keep=False, rlimit=None, repo=REPO, extra_verus_args="", rend
                           "possible bit shift", "decreases not satisfied", "recommendation not met",
                           "could not prove termination", "unreachable", "loop invariant", "possible cast",
                           "failed to prove", "cannot show", "rlimit", "Resource limit", "panic", "unwrap",
-                          "constructed value may fail to meet its declared type invariant", "index out of bounds",
+                          "constructed value may fail to meet its declared type invariant", "index out of bounds", "unable to prove",
                           "possible index", "possible slice", "may be out of bounds", "is not satisfied")
             if any(v in msg for v in verif_msgs):
                 e["kind"] = "verification"
